@@ -21,6 +21,20 @@ CHECKS.update({
          "Generated-history exploration with a metamorphic oracle that needs no model of 'other reasons': the same key and actions are played in env(T) and env(T+5); step types must agree before T, env(T) must be LAST exactly at T. Policies are look-ahead 'survive' plans so that most episodes reach T (reported per env). Untimed CO environments are checked against a horizon computed from the instance (items, nodes, cells, operations).",
          "Assumes the time limit affects termination only; documented None defaults (rows*cols, 1000).", "3/C11"),
 })
+CHECKS.update({
+ "C02": ("Hypothesis-generated call histories: stored (args -> result) pairs re-issued on the same object, on a fresh instance in reverse order, eagerly, inside vmap batches and as one lax.scan; argument snapshots (values + field identities); jaxpr effect scan",
+         "Generated-history exploration of purity and of commutation with jit/vmap/scan on all 23 environments: bitwise determinism under repetition and on fresh instances, arguments untouched (also under rationed eager execution where Python-level mutation is possible), eager vs jit vs vmap vs scan agreement within a measured float tolerance, and a structural scan of the traced programs for effects/callbacks.",
+         "Histories, batch sizes and scan lengths are sampled (batch 3, length 10), eager calls rationed to a few per configuration; float tolerance rtol 1e-5.", "3/C02"),
+ "C13": ("side-by-side differential oracle against the reference composition (unwrapped step; on LAST reset with split(terminal key)[0]) on Hypothesis-generated multi-episode runs; re-run as lax.scan and under vmap",
+         "Generated-history exploration over real environments (not the test fake), both next_obs_in_extras settings: every wrapped step is compared leaf by leaf with the reference composition; runs span many episode boundaries (counted in evidence); key freshness and instance variety are checked per run; the same run is repeated as one jitted scan and under vmap.",
+         "Reference key derivation split(key)[0] as documented in the wrapper; finite env/config menu.", "3/C13"),
+ "C14": ("differential oracles on Hypothesis-generated batches: VmapWrapper slices vs unwrapped execution; VmapAutoResetWrapper vs VmapWrapper(AutoResetWrapper) step by step with staggered terminations; identity-render probe",
+         "Generated-history exploration: batch sizes 1..6, per-element keys and plans so that none/some/all elements terminate on a step (histogram in evidence), 18 consecutive steps per case; both auto-reset compositions must agree at every step and index; render must return element 0.",
+         "Float tolerance rtol 1e-5 between differently batched programs; finite env/config menu.", "3/C14"),
+ "C15": ("model-based testing of the stateful adapters: Hypothesis-generated operation sequences (reset / reseed / step) applied to the adapter and to a native shadow following the documented key schedule; membership in converted spaces",
+         "Generated operation sequences over gym, dm_env and MultiToSingle adapters on real environments: observations, rewards, terminated/truncated flags, first-timestep conventions and re-seeding reproducibility are compared with a native shadow after every operation; observations must belong to the converted space/spec and sampled gym actions must validate natively; aggregator pairs drawn from {sum,max,min,mean,prod}.",
+         "After LAST the sequence always resets (stepping a finished episode is outside the contract); dm_env re-seed = new adapter object.", "3/C15"),
+})
 NOT_APPLICABLE = {}
 PENDING_REASON = "check not built yet in this revision of /verif (work in progress); the technique applies and the design is in DESIGN.md section 3"
 
